@@ -182,9 +182,29 @@ func evalSig(c CaseSig) Result {
 			return viol("ViaBSig special-character flags %#x, the first Via branch %q has %#x\nmsg=%s", uint(sig0.ViaBSig&charFlagMask), c.Branch, uint(wantF), B(base))
 		}
 	}
+	const ipPosMask = sipsp.SigIPStartF | sipsp.SigIPEndF | sipsp.SigIPMiddleF
 	if len(c.CallID) > 0 && hasType(sipsp.HdrCallID) && !refContainsIP4(c.CallID) && !bytes.Contains(c.CallID, []byte(":")) {
 		if wantF := refCharFlags(c.CallID); sig0.CidSig&charFlagMask != wantF {
 			return viol("CidSig special-character flags %#x, the Call-ID %q (no IP inside) has %#x\nmsg=%s", uint(sig0.CidSig&charFlagMask), c.CallID, uint(wantF), B(base))
+		}
+		if sig0.CidSig&ipPosMask != 0 {
+			return viol("CidSig %#x has an IP-position flag, the Call-ID %q contains no address\nmsg=%s", uint(sig0.CidSig), c.CallID, B(base))
+		}
+	} else if len(c.CallID) > 0 && hasType(sipsp.HdrCallID) && refContainsIP4(c.CallID) {
+		// an IPv4 address inside the Call-ID (located by ContainsIP4, whose result C20 decides): exactly the
+		// position flag of that span, and the special characters are those outside it ("skipping over the ip")
+		if found, off, ln := sipsp.ContainsIP4(c.CallID, nil); found && off >= 0 && ln > 0 && off+ln <= len(c.CallID) {
+			wantPos := sipsp.SigIPMiddleF
+			if off == 0 {
+				wantPos = sipsp.SigIPStartF
+			} else if off+ln == len(c.CallID) {
+				wantPos = sipsp.SigIPEndF
+			}
+			wantF := refCharFlags(c.CallID[:off]) | refCharFlags(c.CallID[off+ln:])
+			if sig0.CidSig&ipPosMask != wantPos || sig0.CidSig&charFlagMask != wantF {
+				return viol("CidSig %#x: the Call-ID %q has an IPv4 address at [%d,%d): expected position flag %#x and special-character flags %#x\nmsg=%s",
+					uint(sig0.CidSig), c.CallID, off, off+ln, uint(wantPos), uint(wantF), B(base))
+			}
 		}
 	}
 	nfp := len(want)
